@@ -13,6 +13,7 @@ import Nq.Lemmas.Pop3Heap
 import Nq.Lemmas.Pop3Stat
 import Nq.Lemmas.Pop3Sim
 import Nq.Lemmas.Pop3Walk8
+import Nq.Lemmas.SmtpCmdPop3
 
 namespace Nq.Props.C19
 open Nq Nq.Pop3 Nq.Pop3Ref Nq.Lemmas.Pop3 Nq.Lemmas.Pop3Heap
@@ -40,11 +41,13 @@ theorem C19_top (n : Nat) (m rest : Bytes) :
   exact decode_top (lines m) n rest (lines_noLF m)
 
 /-- The reply to an accepted RETR/TOP is "+OK " CR LF followed by blast() of the file as it is on
-disk now, with the limit computed from the second number of the argument. -/
+disk now, with the limit `limitFor verb arg`: 0 (no limit) for RETR whatever follows the message number
+(`C19_limit_retr`), the limit computed from the second number of the argument for TOP (`C19_limit_top`).
+(Linking lemma: one branch of `exec`.) -/
 theorem C19_retr_reply (s : Sess) (verb arg : Bytes) (i : Nat) (mm : Msg) (f : File)
     (hv : verbIs vRetr verb = true ∨ verbIs vTop verb = true)
     (hn : msgno s arg = .ok i) (hm : s.msgs[i]? = some mm) (hf : fsFind s.fs mm.fn = some f) :
-    exec s verb arg = (s, okLine ++ blast (topLimit arg) f.data, none) := by
+    exec s verb arg = (s, okLine ++ blast (limitFor verb arg) f.data, none) := by
   have hl : lower verb = vRetr ∨ lower verb = vTop := by
     rcases hv with h | h
     · left; simpa [verbIs] using h
@@ -52,7 +55,19 @@ theorem C19_retr_reply (s : Sess) (verb arg : Bytes) (i : Nat) (mm : Msg) (f : F
   rcases hl with h | h <;>
     simp [exec, verbIs, h, hn, hm, hf, vQuit, vStat, vList, vUidl, vDele, vRetr, vTop, vRset, vLast, vNoop]
 
-/-- no second number: limit 0, the whole message (this is what RETR n and TOP n get) -/
+/-- **RETR always sends the whole message**: its limit is 0 whatever follows the message number
+("RETR 2 0" is message 2, all of it). Proved from `Gen.Pop3Tab.retrWhole = true` by `rfl`: the translator
+reads from qmail-pop3d.c on every run that RETR has its own handler dotop(arg,0); this fails to compile if
+RETR goes back to sharing pop3_top() with TOP (then "RETR n k" behaved as "TOP n k"). -/
+theorem C19_limit_retr (verb arg : Bytes) (h : verbIs vRetr verb = true) : limitFor verb arg = 0 := by
+  have hl : lower verb = vRetr := by simpa [verbIs] using h
+  exact limitFor_retr verb arg (by simp [verbIs, hl, vRetr, vTop])
+
+/-- TOP: the limit is that of its second number -/
+theorem C19_limit_top (verb arg : Bytes) (h : verbIs vTop verb = true) : limitFor verb arg = topLimit arg :=
+  limitFor_top verb arg h
+
+/-- no second number: limit 0, the whole message (this is what TOP n gets) -/
 theorem C19_limit_whole (arg : Bytes)
     (h : (scanUlong ((arg.drop (scanUlong arg).2).dropWhile (· = SP))).2 = 0) :
     topLimit arg = 0 := by
@@ -230,25 +245,26 @@ theorem C19_refuse (s : Sess) (verb arg r : Bytes) (h : msgno s arg = .err r)
   · have hl : lower verb = vUidl := by simpa [verbIs] using hv
     simp [exec, verbIs, hl, h, ha, vQuit, vStat, vList, vUidl, vDele, vRetr, vTop, vRset, vLast, vNoop]
 
-/-- what msgno() refuses: no digits, zero, beyond the last message, or already marked — always
-with a "-ERR " line -/
+/-- what msgno() refuses: no digits, digits followed by anything but the end of the argument or a
+space ("1x"), zero, beyond the last message, or already marked — always with a "-ERR " line -/
 theorem C19_refuse_when (s : Sess) (arg : Bytes)
-    (h : (scanUlong arg).2 = 0 ∨ (scanUlong arg).1 = 0 ∨ (scanUlong arg).1 > s.msgs.length ∨
+    (h : (scanUlong arg).2 = 0 ∨ junkAfter arg (scanUlong arg).2 = true ∨ (scanUlong arg).1 = 0 ∨ (scanUlong arg).1 > s.msgs.length ∨
          (∃ m, s.msgs[(scanUlong arg).1 - 1]? = some m ∧ m.del = true)) :
     ∃ r, msgno s arg = .err r ∧ r.take 5 = errSp := by
   unfold msgno
   generalize scanUlong arg = up at h
   obtain ⟨u, pos⟩ := up
   simp only at h ⊢
-  by_cases h0 : pos = 0
-  · exact ⟨errLine "syntax error", by simp [h0], errLine_take _⟩
+  by_cases h0 : pos = 0 ∨ junkAfter arg pos = true
+  · exact ⟨errLine "syntax error", by simp only [h0, if_true], errLine_take _⟩
   by_cases h1 : u = 0
-  · exact ⟨errLine "messages are counted from 1", by simp [h0, h1], errLine_take _⟩
+  · exact ⟨errLine "messages are counted from 1", by simp only [h0, h1, if_true, if_false], errLine_take _⟩
   by_cases h2 : u - 1 ≥ s.msgs.length ∨ u - 1 ≥ INT_MAX
   · exact ⟨errLine "not that many messages", by simp only [h0, h1, h2, if_true, if_false], errLine_take _⟩
   simp only [h0, h1, h2, if_false]
-  rcases h with h | h | h | ⟨m, hm, hd⟩
-  · exact absurd h h0
+  rcases h with h | h | h | h | ⟨m, hm, hd⟩
+  · exact absurd (Or.inl h) h0
+  · exact absurd (Or.inr h) h0
   · exact absurd h h1
   · exfalso; apply h2; left; omega
   · rw [hm]; exact ⟨errLine "already deleted", by simp [hd], errLine_take _⟩
@@ -277,8 +293,8 @@ theorem C19_refuse_huge (s : Sess) (arg : Bytes) (h : decVal (arg.takeWhile isDi
   generalize scanUlong arg = up at hu
   obtain ⟨u, pos⟩ := up
   simp only at hu ⊢
-  by_cases h0 : pos = 0
-  · exact ⟨errLine "syntax error", by simp [h0], errLine_take _⟩
+  by_cases h0 : pos = 0 ∨ junkAfter arg pos = true
+  · exact ⟨errLine "syntax error", by simp only [h0, if_true], errLine_take _⟩
   have h2 : u - 1 ≥ s.msgs.length ∨ u - 1 ≥ INT_MAX := by right; rw [hu]; unfold U64 INT_MAX; omega
   have h1 : u ≠ 0 := by rw [hu]; unfold U64; omega
   exact ⟨errLine "not that many messages", by simp only [h0, h1, h2, if_true, if_false], errLine_take _⟩
@@ -289,12 +305,13 @@ value of the leading digit run of the argument, it refuses when there is no digi
 denotes message `n` (index `n - 1`). No modulus appears. -/
 theorem C19_msgno_spec (s : Sess) (arg : Bytes) : msgno s arg = msgnoSpec s arg := msgno_eq_spec s arg
 
-/-- **An accepted number denotes that message**: `i + 1` is the decimal value written, message
-`i + 1` exists and is unmarked — and conversely (the four refusal conditions of `C19_refuse_when`
-are the only ones, plus the `int` range). -/
+/-- **An accepted number denotes that message**: the argument is a non-empty digit run that ends the
+argument or is followed by a space (`endsOk`; "1x" is not a number), `i + 1` is the decimal value written,
+message `i + 1` exists and is unmarked — and conversely (the refusal conditions of `C19_refuse_when` are the
+only ones, plus the `int` range). -/
 theorem C19_msgno_accepts (s : Sess) (arg : Bytes) (i : Nat) :
     msgno s arg = .ok i ↔
-      (arg.takeWhile isDigit ≠ [] ∧ decVal (arg.takeWhile isDigit) = i + 1 ∧ i < s.msgs.length ∧ i < INT_MAX ∧
+      (arg.takeWhile isDigit ≠ [] ∧ endsOk arg = true ∧ decVal (arg.takeWhile isDigit) = i + 1 ∧ i < s.msgs.length ∧ i < INT_MAX ∧
         ∃ m, s.msgs[i]? = some m ∧ m.del = false) := by
   rw [msgno_eq_spec]
   unfold msgnoSpec
@@ -302,9 +319,14 @@ theorem C19_msgno_accepts (s : Sess) (arg : Bytes) (i : Nat) :
   generalize arg.takeWhile isDigit = ds
   constructor
   · intro h
-    by_cases h0 : ds = []
+    by_cases h0 : ds = [] ∨ endsOk arg = false
     · simp [h0] at h
     rw [if_neg h0] at h
+    have h0a : ds ≠ [] := fun e => h0 (Or.inl e)
+    have h0b : endsOk arg = true := by
+      cases he : endsOk arg with
+      | true => rfl
+      | false => exact absurd (Or.inr he) h0
     by_cases h1 : decVal ds = 0
     · simp [h1] at h
     rw [if_neg h1] at h
@@ -320,13 +342,27 @@ theorem C19_msgno_accepts (s : Sess) (arg : Bytes) (i : Nat) :
       · simp only [hd] at h
         have e : decVal ds - 1 = i := by simpa using h
         subst e
-        exact ⟨h0, by omega, by omega, by omega, m, hm, by simpa using hd⟩
-  · rintro ⟨h0, hv, hl, hi, m, hm, hd⟩
+        exact ⟨h0a, h0b, by omega, by omega, by omega, m, hm, by simpa using hd⟩
+  · rintro ⟨h0a, h0b, hv, hl, hi, m, hm, hd⟩
+    have h0 : ¬ (ds = [] ∨ endsOk arg = false) := by
+      rintro (e | e)
+      · exact h0a e
+      · rw [h0b] at e; cases e
     have h1 : ¬ decVal ds = 0 := by omega
     have h2 : ¬ (decVal ds > s.msgs.length ∨ decVal ds > INT_MAX) := by omega
     have e : decVal ds - 1 = i := by omega
     rw [if_neg h0, if_neg h1, if_neg h2, e, hm]
     simp [hd]
+
+/-- **A number followed by junk is refused**: "DELE 1x", "RETR 2abc", "LIST 1x" — digits followed by
+anything but the end of the argument or a space — get "-ERR syntax error" (and by `C19_refuse` have no
+effect). Proved from `Gen.Pop3Tab.msgnoStrict = true` by `rfl` (inside `msgno_eq_spec`): the translator reads
+the test `arg[len] && arg[len] != ' '` from msgno() on every run; this fails to compile if msgno() goes back to
+ignoring what follows the digits. -/
+theorem C19_refuse_junk (s : Sess) (arg : Bytes) (h : endsOk arg = false) :
+    msgno s arg = .err (errLine "syntax error") := by
+  rw [msgno_eq_spec]
+  simp [msgnoSpec, h]
 
 /-- every refusal of msgno() is a "-ERR " line -/
 theorem C19_msgno_err (s : Sess) (arg r : Bytes) (h : msgno s arg = .err r) : r.take 5 = errSp := by
@@ -339,16 +375,16 @@ theorem C19_msgno_err (s : Sess) (arg r : Bytes) (h : msgno s arg = .err r) : r.
     | cases h
 
 /-- **DELE n marks message n** (and nothing else): `n` written in decimal with any number of leading
-zeros, followed by anything that is not a digit. -/
+zeros, ending the argument or followed by a space. -/
 theorem C19_dele_number (s : Sess) (verb arg : Bytes) (n : Nat) (m : Msg) (hv : verbIs vDele verb = true)
-    (h0 : arg.takeWhile isDigit ≠ []) (hn : decVal (arg.takeWhile isDigit) = n + 1)
+    (h0 : arg.takeWhile isDigit ≠ []) (he : endsOk arg = true) (hn : decVal (arg.takeWhile isDigit) = n + 1)
     (hi : n < INT_MAX) (hm : s.msgs[n]? = some m) (hd : m.del = false) :
     exec s verb arg = ({ s with msgs := setDel s.msgs n, last := if n + 1 > s.last then n + 1 else s.last }, okLine, none) := by
   have hl : n < s.msgs.length := by
     rcases Nat.lt_or_ge n s.msgs.length with h | h
     · exact h
     · rw [List.getElem?_eq_none h] at hm; cases hm
-  have := (C19_msgno_accepts s arg n).mpr ⟨h0, hn, hl, hi, m, hm, hd⟩
+  have := (C19_msgno_accepts s arg n).mpr ⟨h0, he, hn, hl, hi, m, hm, hd⟩
   have h : lower verb = vDele := by simpa [verbIs] using hv
   simp [exec, verbIs, h, this, vQuit, vStat, vList, vUidl, vDele]
 
@@ -496,7 +532,7 @@ theorem C19_preauth_main_apop (pid now : Nat) (host : Bytes) (child : Popup.Chil
 /-- the verbs and handlers the model implements are those of the two `pop3commands[]` tables -/
 theorem C19_tables :
     Gen.Pop3Tab.pop3dCmds = [(vQuit, "pop3_quit"), (vStat, "pop3_stat"), (vList, "pop3_list"), (vUidl, "pop3_uidl"),
-      (vDele, "pop3_dele"), (vRetr, "pop3_top"), (vRset, "pop3_rset"), (vLast, "pop3_last"), (vTop, "pop3_top"),
+      (vDele, "pop3_dele"), (vRetr, "pop3_retr"), (vRset, "pop3_rset"), (vLast, "pop3_last"), (vTop, "pop3_top"),
       (vNoop, "okay")] ∧ Gen.Pop3Tab.pop3dDefault = "err_unimpl" ∧
     Gen.Pop3Tab.popupCmds = [(vUser, "pop3_user"), (vPass, "pop3_pass"), (vApop, "pop3_apop"), (vQuit, "pop3_quit"),
       (vNoop, "okay")] ∧ Gen.Pop3Tab.popupDefault = "err_authoriz" :=
@@ -647,11 +683,23 @@ theorem C19_parse_nul (a b : Bytes) (ha : ∀ c ∈ a, c ≠ NUL) :
       simp only [this, key]
   · simp only [key]
 
-/-- **The model's parser and the reference's parser agree** on every line without NUL: the verb (up
-to case) and the argument commands() dispatches are those of the independently written
-`Pop3Ref.splitCmd`, which the oracle reads the client's lines with. -/
+/-- **Linking lemma** (not an independent check: `Pop3Ref.splitCmd`, which the oracle reads the client's
+lines with, is a transcription of `parseLine` without the cut at NUL): on every line without NUL the two agree,
+the verb up to case. The independent statements about the grammar of a command line are `C19_parse_grammar`,
+`C19_parse_spec` and `C19_parse_split`. -/
 theorem C19_parse_ref (line : Bytes) (h : ∀ c ∈ line, c ≠ NUL) :
     splitCmd line = (lower (parseLine line).1, (parseLine line).2) := parse_ref line h
+
+/-- **The model's parser is the independently written splitter of `Nq.CmdLineSpec`** (property C08's
+specification of commands.c: drop one CR, cut at the first NUL, the word up to the first space, skip the
+spaces) on EVERY line — proved in `Nq.Lemmas.SmtpCmdPop3`, imported read-only. -/
+theorem C19_parse_spec (line : Bytes) : parseLine line = Nq.CmdLineSpec.specSplit line :=
+  Nq.Lemmas.SmtpCmd.pop3_parseLine_spec line
+
+/-- … and is characterised by the relation `IsSplit` (a declarative grammar of the line; the result is
+unique) -/
+theorem C19_parse_split (line v a : Bytes) : parseLine line = (v, a) ↔ Nq.CmdLineSpec.IsSplit line v a :=
+  Nq.Lemmas.SmtpCmd.pop3_parseLine_isSplit line v a
 
 /-- **commands() runs exactly one handler per LF-terminated line**, in order, on the verb and
 argument of that line; after the handler that ends the process nothing more is executed. -/
@@ -783,6 +831,9 @@ example : parseLine [97, 0, 98] = ([97], []) := by decide
 /-- two lines, the second never runs because the first is QUIT -/
 example : ((stepLine (stepLine { s := ⟨[], 0, []⟩ } [113, 117, 105, 116]) [110, 111, 111, 112]).exit = some 0) := by decide
 
+/-- "1x" is not a message number, "1", "1 5" and "1 " are -/
+example : endsOk [49, 120] = false ∧ endsOk [49] = true ∧ endsOk [49, 32, 53] = true ∧ endsOk [49, 32] = true := by decide
+example : msgArg [49, 120] = none ∧ msgArg [49, 32, 53] = some 1 := by decide
 /-- "USER" / "pass" are the verbs; an unmarked new/ message: "new/a" → "cur/a:2," -/
 example : verbIs vUser [85, 83, 69, 82] = true ∧ verbIs vPass [112, 97, 115, 115] = true := by decide
 example : seenName [110, 101, 119, 47, 97] = [99, 117, 114, 47, 97, 58, 50, 44] := by decide
